@@ -17,7 +17,10 @@ where the right-hand side is computed by torch on the dense tensor AND by gather
 the flat positions computed by the Coq model (so the model's reading of torch indexing is itself
 checked on every case).  Plus: diag=True vs diagonal, K(x2,x1) vs K(x1,x2)^T, lazy vs eager, stacked
 blocks, entrywise meaning, repeat, kernel[i] / expand_batch with active_dims (against the Coq table
-model), active_dims = column selection."""
+model), active_dims = column selection; multi-output kernels with ARD and unequal parameters; kernels
+whose forward consumes call-time keyword arguments through chains of lazy operations (closed-form
+reference); sequences of requests on one kernel object under every setting that changes the lazy
+evaluation code path (debug off, lazily_evaluate_kernels off, trace_mode)."""
 import itertools
 import json
 import math
@@ -618,7 +621,35 @@ def kernel_zoo(seed):
     Z.append(("lcm", lambda bs, ad: gk.LCMKernel([ls(gk.RBFKernel(active_dims=ad), bs), gk.MaternKernel(nu=1.5, active_dims=ad)],
                                                    num_tasks=2, rank=1), 2))
     Z.append(("rbfgrad", lambda bs, ad: ls(gk.RBFKernelGrad(batch_shape=bsz(bs), active_dims=ad), bs), None))
+
+    # multi-output kernels with ARD and all parameters UNEQUAL across input dimensions / tasks / batch elements (a freshly
+    # constructed kernel has equal lengthscales, which hides any permutation of the per-dimension blocks)
+    def ard(k):
+        for mod in k.modules():
+            if getattr(mod, "has_lengthscale", False) and getattr(mod, "raw_lengthscale", None) is not None:
+                shp = mod.lengthscale.shape
+                base = 0.55 + 0.75 * torch.arange(shp[-1], dtype=torch.float64)          # 0.55, 1.3, 2.05: pairwise different
+                mod.lengthscale = base * (1.0 + 0.15 * torch.rand(shp, generator=g))
+            if hasattr(mod, "raw_offset"):
+                mod.offset = lin(g, 0.4, 1.6, *mod.offset.shape)
+        return k
+
+    nd = lambda ad: len(ad) if ad is not None else 3  # noqa: E731
+    Z.append(("rbfgrad-ard", lambda bs, ad: ard(gk.RBFKernelGrad(ard_num_dims=nd(ad), batch_shape=bsz(bs), active_dims=ad)), None))
+    Z.append(("rbfgradgrad-ard", lambda bs, ad: ard(gk.RBFKernelGradGrad(ard_num_dims=nd(ad), batch_shape=bsz(bs), active_dims=ad)),
+              lambda d: 1 + 2 * d))
+    Z.append(("matern52grad-ard", lambda bs, ad: ard(gk.Matern52KernelGrad(ard_num_dims=nd(ad), batch_shape=bsz(bs), active_dims=ad)), None))
+    Z.append(("polygrad", lambda bs, ad: ard(gk.PolynomialKernelGrad(power=2, batch_shape=bsz(bs), active_dims=ad)), None))
+    Z.append(("multitask-ard", lambda bs, ad: gk.MultitaskKernel(ard(gk.RBFKernel(ard_num_dims=nd(ad), batch_shape=bsz(bs), active_dims=ad)),
+                                                                   num_tasks=3, rank=2, batch_shape=bsz(bs)), 3))
+    Z.append(("lcm-ard", lambda bs, ad: gk.LCMKernel([ard(gk.RBFKernel(ard_num_dims=nd(ad), active_dims=ad)),
+                                                       ard(gk.MaternKernel(nu=1.5, ard_num_dims=nd(ad), active_dims=ad))],
+                                                      num_tasks=3, rank=1), 3))
     return Z
+
+
+GRAD_KERNELS = ("rbfgrad", "rbfgrad-ard", "rbfgradgrad-ard", "matern52grad-ard", "polygrad")
+ORIGIN_ONLY = ("rbfgrad-ard", "rbfgradgrad-ard", "matern52grad-ard", "polygrad", "multitask-ard", "lcm-ard")
 
 
 def eq(a, b, tol=ATOL):
@@ -635,10 +666,12 @@ def run_identity_checks(out, ctx):
     AD = torch.tensor([0, 2])
     for name, fac, p in kernel_zoo(seed):
         for bs in ((), (2,)):
-            if name == "lcm" and bs:
+            if name in ("lcm", "lcm-ard") and bs:
                 continue
             for ad in (None, AD):
                 for geom in GEOMS:
+                    if name in ORIGIN_ONLY and geom != "origin":     # (the rounding bound is not worked out for these kernels)
+                        continue
                     identity_case(out, g, name, fac, p, bs, ad, geom)
     out.extra["identity_geometries"] = GEOMS
     out.extra["identity_largest_discrepancy_over_threshold"] = {k: float("%.3g" % v) for k, v in MARGIN.items()}
@@ -655,12 +688,13 @@ def identity_case(out, g, name, fac, p, bs, ad, geom):
     except Exception as e:
         out.fail("construct:%s" % name, "cannot construct kernel: %r" % e, dict(kernel=name, bs=list(bs)))
         return
-    pp = p if p is not None else (1 + (d if ad is None else len(ad)))
+    deff = d if ad is None else len(ad)
+    pp = p(deff) if callable(p) else (p if p is not None else 1 + deff)
     x1, x2, x1b = torch.randn(n, d, generator=g), torch.randn(m, d, generator=g), torch.randn(n, d, generator=g)
     (x1, x2, x1b), S = apply_geom(geom, g, [x1, x2, x1b], d)
     if S != 1.0:
         rescale_kernel(k, S)
-    needs_batched_x = name == "rbfgrad"   # RBFKernelGrad takes its batch shape from the inputs (broadcasting: C08)
+    needs_batched_x = name in GRAD_KERNELS   # RBFKernelGrad takes its batch shape from the inputs (broadcasting: C08)
     if needs_batched_x and bs:
         x1, x2, x1b = (t.expand(*bs, *t.shape).contiguous() for t in (x1, x2, x1b))
     small = dict(kernel=name, batch_shape=list(bs), active_dims=(ad.tolist() if ad is not None else None), geom=geom)
@@ -760,7 +794,7 @@ def identity_case(out, g, name, fac, p, bs, ad, geom):
         # active_dims = column selection
         if ad is not None:
             out.case(dict(small, what="active_dims"), nt, label="active_dims")
-            k0 = fac(bs, None) if name not in ("rbf-ard",) else None
+            k0 = fac(bs, None) if "ard" not in name else None
             if k0 is not None:
                 k0.load_state_dict({kk_: v for kk_, v in k.state_dict().items() if "active_dims" not in kk_}, strict=False)
                 W = dense(k0(x1[..., ad], x2[..., ad]))
@@ -785,7 +819,7 @@ def identity_case(out, g, name, fac, p, bs, ad, geom):
                 if not eq(got, D[i]):
                     out.fail(kk("kernel-getitem"), "kernel[%s](x1,x2) != kernel(x1,x2)[%s]" % (i, i), case, impl=got, model=D[i])
         for new in ((3,) + tuple(bs), (2,) if not bs else (2, 2)):
-            if name == "lcm" or (needs_batched_x and tuple(new) != tuple(bs)):
+            if name in ("lcm", "lcm-ard") or (needs_batched_x and tuple(new) != tuple(bs)):
                 continue
             out.case(dict(small, what="expand_batch", new=list(new)), nt, label="expand_batch")
             try:
@@ -798,6 +832,340 @@ def identity_case(out, g, name, fac, p, bs, ad, geom):
             if not eq(got, want):
                 out.fail(kk("expand_batch"), "kernel.expand_batch(%s)(x1,x2) differs from the expanded matrix" % (list(new),), case,
                          impl=got, model=want)
+
+
+# --------------------------------------------------------------------------- call-time keyword arguments
+# Kernel.__call__(x1, x2, diag, last_dim_is_batch, **params) hands **params to forward(); a LazyEvaluatedKernelTensor must
+# carry them through EVERY lazy operation.  Family: user-defined kernels whose forward consumes call-time arguments
+# (closed forms below), plain and wrapped in ScaleKernel / MultitaskKernel / LCMKernel / sums / products, called with
+# non-default arguments, through chains of lazy operations; reference = the closed form evaluated densely by this file.
+
+def kwarg_kernels():
+    from gpytorch import kernels as gk
+
+    class PowDot(gk.Kernel):
+        """k(x, z) = scale * (x.z + offset) ** power;  power, offset, scale are call-time arguments"""
+        has_lengthscale = False
+
+        def forward(self, x1, x2, diag=False, last_dim_is_batch=False, power=1, offset=0.0, scale=1.0, **params):
+            if diag:
+                return scale * ((x1 * x2).sum(-1) + offset) ** power
+            return scale * (x1 @ x2.transpose(-1, -2) + offset) ** power
+
+    class GainRBF(gk.Kernel):
+        """k(x, z) = exp(-gain |x - z|^2 / l^2) + floor;  gain, floor are call-time arguments, l a parameter"""
+        has_lengthscale = True
+
+        def forward(self, x1, x2, diag=False, last_dim_is_batch=False, gain=0.5, floor=0.0, **params):
+            a, b = x1 / self.lengthscale, x2 / self.lengthscale
+            if diag:
+                return torch.exp(-gain * ((a - b) ** 2).sum(-1)) + floor
+            return torch.exp(-gain * ((a.unsqueeze(-2) - b.unsqueeze(-3)) ** 2).sum(-1)) + floor
+
+    def powdot_ref(x1, x2, power=1, offset=0.0, scale=1.0):
+        return scale * ((x1.unsqueeze(-2) * x2.unsqueeze(-3)).sum(-1) + offset) ** power
+
+    def gain_ref(ell):
+        def f(x1, x2, gain=0.5, floor=0.0):
+            return torch.exp(-gain * (((x1.unsqueeze(-2) - x2.unsqueeze(-3)) / ell) ** 2).sum(-1)) + floor
+        return f
+
+    def kron_ref(A, B):
+        return (A[..., :, None, :, None] * B[..., None, :, None, :]).reshape(*torch.broadcast_shapes(A.shape[:-2], B.shape[:-2]),
+                                                                            A.shape[-2] * B.shape[-2], A.shape[-1] * B.shape[-1])
+
+    def make(name, seed):
+        """-> kernel, reference(x1, x2, **kw) -> dense tensor, outputs per input, list of kwargs"""
+        g = torch.Generator().manual_seed(991 + seed)
+        kw_pd = [dict(power=3, offset=0.75), dict(power=2, scale=0.5), dict(offset=-0.25, scale=1.5, power=1)]
+        kw_g = [dict(gain=1.25), dict(gain=0.2, floor=0.3)]
+        if name == "powdot":
+            return PowDot(), powdot_ref, 1, kw_pd
+        if name == "gainrbf":
+            k = GainRBF(ard_num_dims=3)
+            k.lengthscale = torch.tensor([[0.7, 1.4, 2.2]])
+            ell = k.lengthscale.detach().clone()
+            return k, gain_ref(ell), 1, kw_g
+        if name == "scale-powdot":
+            k = gk.ScaleKernel(PowDot())
+            k.outputscale = 1.7
+            return k, (lambda x1, x2, **kw: 1.7 * powdot_ref(x1, x2, **kw)), 1, kw_pd
+        if name == "sum-powdot-gainrbf":
+            b = GainRBF()
+            b.lengthscale = 1.3
+            k = PowDot() + b
+            return k, (lambda x1, x2, power=1, offset=0.0, scale=1.0, gain=0.5, floor=0.0:
+                       powdot_ref(x1, x2, power, offset, scale) + gain_ref(torch.tensor(1.3))(x1, x2, gain, floor)), 1, \
+                [dict(power=2, offset=0.5, gain=1.5), dict(scale=0.5, floor=0.25, power=3)]
+        if name == "product-powdot-gainrbf":
+            b = GainRBF()
+            b.lengthscale = 0.9
+            k = PowDot() * b
+            return k, (lambda x1, x2, power=1, offset=0.0, scale=1.0, gain=0.5, floor=0.0:
+                       powdot_ref(x1, x2, power, offset, scale) * gain_ref(torch.tensor(0.9))(x1, x2, gain, floor)), 1, \
+                [dict(power=2, offset=0.5, gain=1.5), dict(scale=0.5, floor=0.25, power=3)]
+        if name == "multitask-powdot":
+            k = gk.MultitaskKernel(PowDot(), num_tasks=2, rank=1)
+            B = k.task_covar_module.covar_matrix.to_dense().detach().clone()
+            return k, (lambda x1, x2, **kw: kron_ref(powdot_ref(x1, x2, **kw), B)), 2, kw_pd
+        if name == "lcm-powdot-gainrbf":
+            b = GainRBF()
+            b.lengthscale = 1.1
+            k = gk.LCMKernel([PowDot(), b], num_tasks=2, rank=1)
+            Bs = [m.task_covar_module.covar_matrix.to_dense().detach().clone() for m in k.covar_module_list]
+            return k, (lambda x1, x2, power=1, offset=0.0, scale=1.0, gain=0.5, floor=0.0:
+                       kron_ref(powdot_ref(x1, x2, power, offset, scale), Bs[0])
+                       + kron_ref(gain_ref(torch.tensor(1.1))(x1, x2, gain, floor), Bs[1])), 2, \
+                [dict(power=2, offset=0.5, gain=1.5), dict(scale=0.5, floor=0.25, power=3)]
+        raise KeyError(name)
+    return make
+
+
+KWARG_KERNELS = ["powdot", "gainrbf", "scale-powdot", "sum-powdot-gainrbf", "product-powdot-gainrbf", "multitask-powdot", "lcm-powdot-gainrbf"]
+
+
+def lazy_ops(p, batch, square):
+    """name -> (operation on the lazy tensor, the same operation on the dense reference); p = outputs per input"""
+    ops = {
+        "mT": (lambda K: K.mT, lambda D: D.mT),
+        "transpose": (lambda K: K.transpose(-1, -2), lambda D: D.transpose(-1, -2)),
+        "rows": (lambda K: K[..., p:, :], lambda D: D[..., p:, :]),
+        "cols": (lambda K: K[..., :, :2 * p], lambda D: D[..., :, :2 * p]),
+        "block": (lambda K: K[..., p:3 * p, p:], lambda D: D[..., p:3 * p, p:]),
+        "repeat": (lambda K: K.repeat(*([1] * len(batch)), 2, 1), lambda D: D.repeat(*([1] * len(batch)), 2, 1)),
+        "expand": (lambda K: K.expand(2, *K.shape), lambda D: D.expand(2, *D.shape)),
+        "unsqueeze": (lambda K: K.unsqueeze(0), lambda D: D.unsqueeze(0)),
+        "evaluate_kernel": (lambda K: K.evaluate_kernel(), lambda D: D),
+        "to_dense": (lambda K: K.to_dense(), lambda D: D),
+        "tensor-index": (lambda K: K[..., torch.tensor([2 * p - 1, 0]), torch.tensor([0, p])],
+                         lambda D: D[..., torch.tensor([2 * p - 1, 0]), torch.tensor([0, p])]),
+        "row-int": (lambda K: K[..., p, :], lambda D: D[..., p, :]),
+    }
+    if batch:
+        ops["batch-index"] = (lambda K: K[1], lambda D: D[1])
+    else:
+        ops["t"] = (lambda K: K.t(), lambda D: D.t())
+    if square:
+        ops["diagonal"] = (lambda K: K.diagonal(dim1=-1, dim2=-2), lambda D: D.diagonal(dim1=-1, dim2=-2))
+    return ops
+
+
+CHAIN_HEADS = ["mT", "transpose", "t", "rows", "cols", "block", "repeat", "expand", "unsqueeze", "evaluate_kernel", "batch-index"]
+CHAIN_TAILS = ["mT", "transpose", "rows", "cols", "block", "repeat", "expand", "unsqueeze", "evaluate_kernel", "to_dense", "tensor-index",
+               "row-int", "diagonal"]
+
+
+def lazy_chains(ops):
+    """all single operations, all ordered pairs head -> tail, and the triples head -> mT -> tail"""
+    ch = [[o] for o in ops]
+    for a in CHAIN_HEADS:
+        for b in CHAIN_TAILS:
+            if a in ops and b in ops:
+                ch.append([a, b])
+                if a != "mT" and b != "mT":
+                    ch.append([a, "mT", b])
+    ch += [["mT", "mT"], ["mT", "rows", "mT"], ["mT", "mT", "block"]]
+    return ch
+
+
+class NotApplicable(Exception):
+    pass
+
+
+def apply_chain(ops, chain, K, D):
+    from gpytorch.lazy import LazyEvaluatedKernelTensor
+    for o in chain:
+        f, fd = ops[o]
+        if o == "diagonal" and D.shape[-1] != D.shape[-2]:
+            raise NotApplicable("diagonal of a non-square matrix (LinearOperator.diagonal is documented for square operators)")
+        if o == "repeat" and not torch.is_tensor(K) and not isinstance(K, LazyEvaluatedKernelTensor):
+            raise NotApplicable("repeat of the rows of an evaluated operator (linear_operator repeats batches only)")
+        if torch.is_tensor(K):              # already evaluated (diagonal, tensor index, to_dense): continue densely on both sides
+            K = fd(K)
+        else:
+            K = f(K)
+        D = fd(D)
+    return dense(K), D
+
+
+def run_kwarg_checks(out, ctx):
+    import gpytorch
+    seed = ctx["seed"]
+    make = kwarg_kernels()
+    g = torch.Generator().manual_seed(5150 + seed)
+    n, m, d = 3, 4, 3
+    for name in KWARG_KERNELS:
+        for batch in ((), (2,)):
+            for square in (False, True):
+                k, ref, p, kws = make(name, seed)
+                x1 = lin(g, -1.2, 1.2, *batch, n, d)
+                x2 = lin(g, -1.2, 1.2, *batch, n if square else m, d)
+                ops = lazy_ops(p, batch, square)
+                for kw in kws:
+                    small = dict(kernel=name, batch=list(batch), square=square, kwargs=kw)
+                    with torch.no_grad():
+                        D = ref(x1, x2, **kw)
+                        D0 = ref(x1, x2)
+                        if torch.allclose(D, D0):
+                            raise RuntimeError("call-time arguments without effect: the case would be vacuous")
+                        for chain in lazy_chains(ops):
+                            # every chain for the first argument set on the rectangular matrix; the square matrix adds the chains
+                            # that end in its diagonal, the further argument sets repeat the single operations and the chains
+                            # that start with a transposition
+                            full = kw is kws[0] and not square
+                            if not (full or len(chain) == 1 or (square and "diagonal" in chain) or (not square and chain[0] in ("mT", "transpose", "t"))):
+                                continue
+                            tag = ">".join(chain)
+                            key = "call-kwargs:%s:%s:%s" % (name, "batch" if batch else "nobatch", tag)
+                            out.case(dict(small, chain=chain), True, label="call-kwargs:" + ("chain%d" % len(chain)))
+                            try:
+                                want_ok = True
+                                _, W = apply_chain({o: (v[1], v[1]) for o, v in ops.items()}, chain, D, D)
+                            except Exception:
+                                want_ok = False
+                            if not want_ok:
+                                out.count("call-kwargs: chain not applicable to the dense tensor")
+                                continue
+                            try:
+                                got, W = apply_chain(ops, chain, k(x1, x2, **kw), D)
+                            except NotApplicable as e:
+                                out.count("call-kwargs: not applicable: %s" % e)
+                                continue
+                            except Exception as e:
+                                out.fail(key + ":raises-" + exc_name(e), "lazy operation chain raises %r although it is valid on the dense matrix" % e,
+                                         dict(small, chain=chain, x1=x1.tolist(), x2=x2.tolist()))
+                                continue
+                            if not eq(got, W):
+                                out.fail(key, "kernel(x1, x2, **kwargs) through lazy operations %s differs from the closed form with these "
+                                         "call-time arguments" % tag, dict(small, chain=chain, x1=x1.tolist(), x2=x2.tolist()), impl=got, model=W)
+                        # eager, diag=True, K(x2, x1)
+                        out.case(dict(small, what="eager/diag/swap"), True, label="call-kwargs:eager-diag-swap")
+                        with gpytorch.settings.lazily_evaluate_kernels(False):
+                            E = dense(k(x1, x2, **kw))
+                        if not eq(E, D):
+                            out.fail("call-kwargs:%s:eager" % name, "eager kernel(x1, x2, **kwargs) differs from the closed form", small, impl=E, model=D)
+                        if not eq(dense(k(x2, x1, **kw)), D.mT):
+                            out.fail("call-kwargs:%s:swap" % name, "kernel(x2, x1, **kwargs) != kernel(x1, x2, **kwargs)^T", small)
+                        if square:
+                            dg = dense(k(x1, x2, diag=True, **kw))
+                            if not eq(dg, D.diagonal(dim1=-1, dim2=-2)):
+                                out.fail("call-kwargs:%s:diag" % name, "kernel(x1, x2, diag=True, **kwargs) is not the diagonal of the closed form",
+                                         small, impl=dg, model=D.diagonal(dim1=-1, dim2=-2))
+
+
+# --------------------------------------------------------------------------- request sequences under settings
+# Settings that change the code path of lazy evaluation are an axis (debug off, lazily_evaluate_kernels off, trace_mode on and
+# combinations), and every kernel OBJECT is asked several times in a row (each kind of request at least twice, random order):
+# a request must not change what the next one returns.  Reference: the same request on a pristine deep copy of the kernel
+# (copied before the first request) under default settings; at the end the kernel's active_dims and state_dict must be unchanged.
+
+SEQ_SETTINGS = ["default", "debug-off", "lazy-off", "trace-mode", "debug-off+trace-mode", "debug-off+lazy-off"]
+SEQ_SETTINGS_BATCH = ["default", "debug-off", "debug-off+trace-mode"]      # (quick tier: batched kernels visit these only)
+
+
+def settings_ctx(tag):
+    import contextlib
+    import gpytorch
+    st = contextlib.ExitStack()
+    if "debug-off" in tag:
+        st.enter_context(gpytorch.settings.debug(False))
+    if "lazy-off" in tag:
+        st.enter_context(gpytorch.settings.lazily_evaluate_kernels(False))
+    if "trace-mode" in tag:
+        st.enter_context(gpytorch.settings.trace_mode(True))
+    return st
+
+
+def seq_requests(p):
+    import gpytorch
+
+    def eager(k, x1, x2, kw):
+        with gpytorch.settings.lazily_evaluate_kernels(False):
+            return dense(k(x1, x2, **kw))
+    return {
+        "lazy": lambda k, x1, x2, kw: dense(k(x1, x2, **kw)),
+        "lazy-block": lambda k, x1, x2, kw: dense(k(x1, x2, **kw)[..., p:, :2 * p]),
+        "lazy-mT": lambda k, x1, x2, kw: dense(k(x1, x2, **kw).mT),
+        "eager": eager,
+        "self": lambda k, x1, x2, kw: dense(k(x1, **kw)),
+        "diag": lambda k, x1, x2, kw: dense(k(x1, diag=True, **kw)),
+        "lazy-diagonal": lambda k, x1, x2, kw: dense(k(x1, **kw).diagonal(dim1=-1, dim2=-2)),
+        "swap": lambda k, x1, x2, kw: dense(k(x2, x1, **kw)),
+    }
+
+
+def run_sequence_checks(out, ctx):
+    import copy
+    seed = ctx["seed"]
+    rng = random.Random(seed * 7907 + 11)
+    g = torch.Generator().manual_seed(6260 + seed)
+    AD = torch.tensor([0, 2])
+    n, m, d = 3, 4, 3
+    subjects = []
+    for name, fac, p in kernel_zoo(seed):
+        for bs in ((), (2,)):
+            if name in ("lcm", "lcm-ard") and bs:
+                continue
+            for ad in (None, AD):
+                subjects.append((name, bs, ad, (lambda fac=fac, bs=bs, ad=ad: fac(bs, ad)), p, {}))
+    make = kwarg_kernels()
+    for name in KWARG_KERNELS:
+        k0, ref, p, kws = make(name, seed)
+        subjects.append((name, (), None, (lambda name=name: make(name, seed)[0]), p, kws[0]))
+    for name, bs, ad, build, p, kw in subjects:
+        deff = d if ad is None else len(ad)
+        pp = p(deff) if callable(p) else (p if p is not None else 1 + deff)
+        x1, x2 = torch.randn(n, d, generator=g), torch.randn(m, d, generator=g)
+        if name in GRAD_KERNELS and bs:
+            x1, x2 = (t.expand(*bs, *t.shape).contiguous() for t in (x1, x2))
+        reqs = seq_requests(pp)
+        small = dict(kernel=name, batch_shape=list(bs), active_dims=(ad.tolist() if ad is not None else None))
+        try:
+            pristine = build()
+        except Exception as e:
+            out.fail("construct:%s" % name, "cannot construct kernel: %r" % e, small)
+            continue
+        refs = {}
+        with torch.no_grad():
+            for r, f in reqs.items():
+                try:
+                    refs[r] = f(copy.deepcopy(pristine), x1, x2, kw)
+                except Exception as e:
+                    refs[r] = e
+        for stag in (SEQ_SETTINGS_BATCH if (bs and ctx["tier"] == "quick") else SEQ_SETTINGS[:5] if ctx["tier"] == "quick" else SEQ_SETTINGS):
+            k = copy.deepcopy(pristine)
+            order = list(reqs) * 2
+            rng.shuffle(order)
+            hist = []
+            ktag = "%s:%s%s" % (name, "batch" if bs else "nobatch", ":active_dims" if ad is not None else "")
+            with torch.no_grad(), settings_ctx(stag):
+                for r in order:
+                    hist.append(r)
+                    out.case(dict(small, settings=stag, history=list(hist)), True, label="sequence:" + stag)
+                    if isinstance(refs[r], Exception):
+                        out.count("sequence: request refused by the pristine kernel (%s)" % exc_name(refs[r]))
+                        continue
+                    try:
+                        got = reqs[r](k, x1, x2, kw)
+                    except Exception as e:
+                        out.fail("sequence:%s:%s:%s:raises-%s" % (stag, ktag, r, exc_name(e)),
+                                 "request %s (number %d on this kernel object, settings %s) raises %r; a pristine copy of the kernel answers it"
+                                 % (r, len(hist), stag, e), dict(small, settings=stag, history=list(hist), x1=x1.tolist(), x2=x2.tolist()))
+                        break
+                    if not eq(got, refs[r]):
+                        first = hist.count(r) == 1 and len(hist) == 1
+                        out.fail("sequence:%s:%s:%s:%s" % (stag, ktag, r, "first-request" if first else "later-request"),
+                                 "request %s after the history %s under settings %s differs from the same request on a pristine copy of "
+                                 "the kernel under default settings" % (r, hist[:-1], stag),
+                                 dict(small, settings=stag, history=list(hist), x1=x1.tolist(), x2=x2.tolist()), impl=got, model=refs[r])
+                        break
+            a0, a1 = getattr(pristine, "active_dims", None), getattr(k, "active_dims", None)
+            same_ad = (a0 is None and a1 is None) or (a0 is not None and a1 is not None and torch.equal(a0, a1))
+            sd0, sd1 = pristine.state_dict(), k.state_dict()
+            same_sd = list(sd0) == list(sd1) and all(torch.equal(sd0[key], sd1[key]) for key in sd0)
+            if not (same_ad and same_sd):
+                out.fail("sequence:%s:%s:state" % (stag, ktag), "the kernel object is changed by evaluating it (active_dims %s -> %s, state_dict %s)"
+                         % (a0, a1, "equal" if same_sd else "differs"), dict(small, settings=stag, history=list(hist)))
 
 
 # --------------------------------------------------------------------------- batch broadcast patterns
@@ -1115,6 +1483,8 @@ def run(out, ctx):
     tie_t(out, ctx)
     run_table_checks(out, ctx)
     run_identity_checks(out, ctx)
+    run_kwarg_checks(out, ctx)
+    run_sequence_checks(out, ctx)
     bc = run_broadcast_checks(out, ctx)
     run_index_checks(out, ctx, cfgs, bc)
     out.exhaustive = True
@@ -1130,6 +1500,18 @@ def run(out, ctx):
                 "(2,3)} - batch on one operand only, on each pair, on all, stretching size-1 dimensions, different ranks - against "
                 "a reference assembled per batch element from unbatched kernels with the Coq broadcast model's source elements: "
                 "shape, lazy to_dense, eager, diag, transpose and a fixed set of index expressions per pattern. "
+                "Multi-output kernels with ARD and all parameters UNEQUAL across input dimensions / tasks / batch elements "
+                "(RBFKernelGrad, RBFKernelGradGrad, Matern52KernelGrad, PolynomialKernelGrad, Multitask rank 2 x 3 tasks, LCM) in all "
+                "identities (n = 3 vs 4 points). Call-time keyword arguments: 7 kernels whose forward consumes call-time arguments "
+                "(two user-defined closed forms, plain and inside Scale / sum / product / Multitask / LCM) called with non-default "
+                "arguments through all single lazy operations (mT, transpose, t, row / column / block slices, tensor index, int row, "
+                "batch index, diagonal, repeat, expand, unsqueeze, evaluate_kernel, to_dense), all ordered pairs and the triples "
+                "a > mT > b, against the closed form. Request sequences: every kernel of the zoo (x batch x active_dims) and the "
+                "call-time-argument kernels asked 16 times in a row on the SAME object (lazy, lazy block, lazy mT, eager, k(x), "
+                "diag=True, lazy diagonal, swapped arguments; each twice, random order) under settings default / debug off / "
+                "lazily_evaluate_kernels off / trace_mode / debug off + trace_mode (thorough: + debug off + lazy off; quick tier: "
+                "batched kernels under default / debug off / debug off + trace_mode), every answer compared with a pristine "
+                "deep copy under default settings, active_dims and state_dict compared afterwards. "
                 "non-trivial = the index is valid for the dense tensor and selects at least one entry; expressions torch "
                 "rejects are outside the property and only counted")
     out.extra["tolerances"] = {"same code evaluated on a subset of inputs vs gathered entries": ATOL,
@@ -1178,6 +1560,10 @@ def replay(path):
             run_table_checks(out, ctx)
         elif str(d.get("key", "")).startswith(("broadcast:", "model:broadcast")):
             run_broadcast_checks(out, dict(ctx, tier="thorough"))
+        elif str(d.get("key", "")).startswith("call-kwargs:"):
+            run_kwarg_checks(out, ctx)
+        elif str(d.get("key", "")).startswith("sequence:"):
+            run_sequence_checks(out, ctx)
         elif str(d.get("key", "")).startswith("lazy:"):
             for c in make_configs(ctx["seed"]):
                 check_lazy_dense(out, c)
